@@ -99,7 +99,7 @@ func (h *H) checkScalarHelpers(id string, idx int) {
 		// A product that underflows in the scaled data is not judged.
 		// (nor one whose smaller singular value itself is in the underflow range:
 		// the accuracy statement of Dlas2 holds "barring over/underflow").
-		if p := math.Abs(fs * hs); (p > 1e-290 || p == 0) && (smin == 0 || smin > 1e-290) {
+		if p := math.Abs(fs * hs); (p > 1e-290 || p == 0) && (p == 0 || (smax > 0 && math.Abs(f)/smax*math.Abs(hh) > 1e-290)) {
 			if !cs.band("Dlas2", "", "las2-determinant", math.Abs(a*b-p), eps*math.Max(p, 1e-300), func() string { return in }) {
 				break
 			}
